@@ -101,6 +101,18 @@ func Lib() *ty.Env {
 	add("UDW", "", ty.St(f("M", ty.N(48)), f("S", ty.N(49)), f("P", ty.P(ty.N(48))), f("L", ty.Sl(ty.N(48))), f("V", ty.M(b("string"), ty.N(49))), f("Q", ty.P(ty.N(49)))), false) // 50
 	// arrays of arrays whose elements are not assignable: nested loops over one array
 	add("AA", "", ty.St(f("G", ty.Ar(3, ty.Ar(2, ty.P(b("int"))))), f("H", ty.Ar(2, ty.Ar(3, ty.Sl(b("string")))))), false) // 51
+	// the same exported name in two packages, one with its own Equal / Hash methods (UE1 of p), one without (this
+	// one): whatever is remembered per type must not be keyed by the bare name
+	add("UE1", "ext", ty.St(f("A", b("int")), f("B", ty.Sl(b("int")))), false)                                       // 52
+	add("SUE", "", ty.St(f("X", ty.N(52)), f("L", ty.N(31)), f("P", ty.P(ty.N(52))), f("Q", ty.P(ty.N(31)))), false) // 53
+	add("SUE2", "", ty.St(f("L", ty.N(31)), f("X", ty.N(52))), false)                                                // 54
+	// two instances of one generic struct (written as aliases of the instances; go/types hands the generator the
+	// instances, which share their declared name Opt): one comparable with ==, one holding a pointer
+	oi := add("OptI", "", ty.St(f("V", b("int")), f("Ok", b("bool"))), false) // 55
+	e.Decls[oi].Src = "type Opt[T any] struct {\n\tV  T\n\tOk bool\n}\n\ntype OptI = Opt[int]"
+	op := add("OptP", "", ty.St(f("V", ty.P(b("int"))), f("Ok", b("bool"))), false) // 56
+	e.Decls[op].Src = "type OptP = Opt[*int]"
+	add("GH", "", ty.St(f("A", ty.N(55)), f("B", ty.N(56)), f("C", ty.Sl(ty.N(56))), f("D", ty.N(55))), false) // 57
 	return e
 }
 
@@ -241,7 +253,7 @@ func NewCorpusEnv(env *ty.Env, rng *rand.Rand, thorough bool, n2, extra int) *Co
 		ty.M(ty.B("bool"), ty.Sl(ty.B("string"))),
 		ty.P(ty.N(47)), ty.Sl(ty.N(46)), ty.P(ty.N(50)),
 		// arrays of arrays whose elements are not assignable (nested loops over one array)
-		ty.P(ty.N(51)),
+		ty.P(ty.N(51)), ty.P(ty.N(53)), ty.P(ty.N(54)), ty.P(ty.N(57)),
 	} {
 		add(t)
 	}
